@@ -55,7 +55,9 @@ def shapes(tier, seed):
         if not q:
             out.append(('accept', carrier, 3, 0, None, 0, False, False, False))
             out.append(('accept', carrier, 1, 2, 'hdr', 1, True, True, False))
-        for what in ('path', 'query', 'header', 'body', 'key', 'sig', 'method', 'methodcase', 'signedlist', 'signedlist-stray', 'signedlist-leading', 'duppair', 'dupheader'):
+        for what in ('path', 'query', 'header', 'body', 'key', 'sig', 'method', 'methodcase', 'signedlist', 'signedlist-stray', 'signedlist-leading', 'duppair', 'dupheader', 'timestamp'):
+            if what == 'timestamp' and carrier == 'query':
+                continue        # in the query carrier X-Amz-Date is part of the canonical query anyway
             out.append(('mutate', carrier, what))
     return out
 
@@ -186,15 +188,20 @@ def run_shape(prog, shape, tier, seed, res):
         pathB, pairsB, wqB, hdrB, signedB, bodyB, methB = parts(b, keyB)
         cred = conc_bytes(AKID + '/' + SCOPE)
 
-        def finish(path, pairs, wire_q, headers, signed, bodyb, method, sig_from=None, list_text=None):
+        def finish(path, pairs, wire_q, headers, signed, bodyb, method, sig_from=None, list_text=None, ts=None):
             headers = list(headers)
             signed = list(signed)
             pairs = list(pairs)
             wire_q = list(wire_q)
             cpath = conc_bytes('/') + R.pct_encode(ctx, path[1:])
             if carrier == 'header':
-                headers.append(('x-amz-date', conc_bytes(TS)))
-                signed = sorted(signed + ['x-amz-date'])
+                if ts is not None:
+                    # 'timestamp' mutation: the date header is NOT signed, so the instant is bound by the string-to-sign alone
+                    headers.append(('x-amz-date', list(ts)))
+                    signed = sorted(signed)
+                else:
+                    headers.append(('x-amz-date', conc_bytes(TS)))
+                    signed = sorted(signed + ['x-amz-date'])
                 cq = R.ref_canon_query_from_pairs(ctx, pairs)
             else:
                 signed = sorted(signed)
@@ -205,8 +212,16 @@ def run_shape(prog, shape, tier, seed, res):
                     wire_q += conc_bytes('&' + n + '=') + R.pct_encode(ctx, conc_bytes(v))
                 cq = R.ref_canon_query_from_pairs(ctx, pairs)
             return cpath, cq, headers, signed, wire_q
-        cpA, cqA, hA, sA, wqA2 = finish(pathA, pairsA, wqA, hdrA, signedA, bodyA, methA)
-        sigA, _, _ = ref_sign(m, keyA, ctx, methA, cpA, cqA, hA, sA, bodyA, conc_bytes(TS), conc_bytes(SCOPE))
+        tsA = tsB = None
+        if what == 'timestamp':
+            # A is stamped hh:mm:59; B carries the same signature with other second digits (60 and 61 included: never the same instant)
+            tsA = conc_bytes('20150830T123559Z')
+            d1 = Int('u8', ctx.fresh_bv('ts1', 8))
+            d0 = Int('u8', ctx.fresh_bv('ts0', 8))
+            ctx.assume(z3.And(z3.UGE(d1.v, 0x30), z3.ULE(d1.v, 0x36), z3.UGE(d0.v, 0x30), z3.ULE(d0.v, 0x39), z3.Not(z3.And(d1.v == 0x35, d0.v == 0x39))))
+            tsB = conc_bytes('20150830T1235') + [d1, d0] + conc_bytes('Z')
+        cpA, cqA, hA, sA, wqA2 = finish(pathA, pairsA, wqA, hdrA, signedA, bodyA, methA, ts=tsA)
+        sigA, _, _ = ref_sign(m, keyA, ctx, methA, cpA, cqA, hA, sA, bodyA, tsA if tsA is not None else conc_bytes(TS), conc_bytes(SCOPE))
         if what == 'sig':
             sigB = list(sigA)
             pos = 17
@@ -218,7 +233,7 @@ def run_shape(prog, shape, tier, seed, res):
             sigB = sigA
         # the list text B presents (in the query carrier it is the X-Amz-SignedHeaders parameter, in the header carrier the Authorization text below)
         stray = {'signedlist-stray': (lambda t: t + ';'), 'signedlist-leading': (lambda t: ';' + t)}.get(what)
-        cpB, cqB, hB, sB, wqB2 = finish(pathB, pairsB, wqB, hdrB, signedB, bodyB, methB, list_text=stray)
+        cpB, cqB, hB, sB, wqB2 = finish(pathB, pairsB, wqB, hdrB, signedB, bodyB, methB, list_text=stray, ts=tsB)
         if carrier == 'header':
             if what in ('signedlist-stray', 'signedlist-leading'):
                 # B presents A's list with an empty entry added (trailing / leading ';'): a different list text, hence not covered by A's signature
@@ -263,6 +278,9 @@ def run_shape(prog, shape, tier, seed, res):
                     res.findings.append(Finding('signature issued for request A validates request B that differs in its %s' % what,
                                                 {'mutation': what, 'carrier': shape[1], 'a': model_int(model, a), 'b': model_int(model, b),
                                                  'request_b': rq.to_json(model)}, None, None, repr(shape)))
+                    if what == 'timestamp':
+                        hv = dict((n, v) for n, v in res.findings[-1].inp['request_b']['headers'])
+                        res.findings[-1].inp['ts_b'] = bytes.fromhex(hv['x-amz-date']).decode()
                 else:
                     res.witnesses.add('mutate-refused')
             else:
@@ -381,7 +399,13 @@ def replay_finding(rp, f):
 
         def mk(x, is_b):
             path, q, headers, signed, body, method = parts(x, is_b)
-            if carrier == 'header':
+            ts_here = TS
+            if carrier == 'header' and what == 'timestamp':
+                ts_here = inp['ts_b'] if is_b else '20150830T123559Z'
+                headers = headers + [['x-amz-date', ts_here.encode().hex()]]
+                signed = sorted(signed)
+                uri = path + '?' + q
+            elif carrier == 'header':
                 headers = headers + [['x-amz-date', TS.encode().hex()]]
                 signed = sorted(signed + ['x-amz-date'])
                 uri = path + '?' + q
@@ -395,7 +419,7 @@ def replay_finding(rp, f):
                 uri = path + '?' + q + '&X-Amz-Algorithm=AWS4-HMAC-SHA256&X-Amz-Credential=%s&X-Amz-Date=%s&X-Amz-SignedHeaders=%s' % (
                     (AKID + '/' + SCOPE).replace('/', '%2F'), TS, lt)
             return {'carrier': carrier, 'request': {'method': method, 'uri': uri, 'version': 'HTTP/1.1', 'headers': headers,
-                                                    'body_hex': body.hex(), 'body_kind': 'bytes'}, 'signed': signed, 's3': False}
+                                                    'body_hex': body.hex(), 'body_kind': 'bytes'}, 'signed': signed, 's3': False, 'ts': ts_here}
         if what in ('key', 'sig'):
             return False, {'note': 'key / signature-digit mutations are replayed by the conformance run (wrong-signature cases)'}
         ja, _, _ = sign_with_method(mk(a, False))
@@ -471,7 +495,7 @@ def sign_with_method(inp):
     path, _, query = uri.partition('?')
     headers = [(n, bytes.fromhex(v)) for n, v in j['headers']]
     cp, cq = c02.py_canon(path, query)
-    sig, creq, sts = py_sign(bytes(32), j['method'], cp, cq, headers, inp['signed'], bytes.fromhex(j['body_hex']), TS, SCOPE, is_key=True)
+    sig, creq, sts = py_sign(bytes(32), j['method'], cp, cq, headers, inp['signed'], bytes.fromhex(j['body_hex']), inp.get('ts', TS), SCOPE, is_key=True)
     if inp['carrier'] == 'header':
         authz = 'AWS4-HMAC-SHA256 Credential=%s/%s, SignedHeaders=%s, Signature=%s' % (AKID, SCOPE, ';'.join(inp['signed']), sig)
         j['headers'].append(['authorization', authz.encode().hex()])
